@@ -47,6 +47,7 @@ import (
 	mempoolv0 "github.com/tendermint/tendermint/mempool/v0"
 	"github.com/tendermint/tendermint/privval"
 	tmstate "github.com/tendermint/tendermint/proto/tendermint/state"
+	tmproto "github.com/tendermint/tendermint/proto/tendermint/types"
 	"github.com/tendermint/tendermint/proxy"
 	sm "github.com/tendermint/tendermint/state"
 	"github.com/tendermint/tendermint/store"
@@ -87,8 +88,10 @@ type c05Input struct {
 	HashMode string `json:"hash_mode"`
 	// InitialHeight of the genesis document (0 or 1: the default).  Plan, ParamAt and Retain are
 	// given by BLOCK NUMBER 1, 2, ...; block number n has height InitialHeight - 1 + n.
-	InitialHeight int64        `json:"initial_height"`
-	Runs          []c05RunSpec `json:"runs"`
+	InitialHeight int64 `json:"initial_height"`
+	// DiscardABCI: the state store runs with StoreOptions.DiscardABCIResponses
+	DiscardABCI bool         `json:"discard_abci"`
+	Runs        []c05RunSpec `json:"runs"`
 }
 
 // ------------------------------------------------------------------------------------ trace
@@ -108,7 +111,16 @@ type c05Post struct {
 	AppH    int64   `json:"app_h"`
 	AppHash c05Hash `json:"app_hash"`
 	WalEnd  int64   `json:"wal_end"` // highest #ENDHEIGHT written through the node's WAL
+	// the rest of the saved sm.State, in the spec's terms (0 while no state is saved)
+	SsLhvc int64 `json:"ss_lhvc"` // LastHeightValidatorsChanged
+	SsLhpc int64 `json:"ss_lhpc"` // LastHeightConsensusParamsChanged
+	SsPid  int64 `json:"ss_pid"`  // which parameter update is in force: the height whose EndBlock set it (0 = genesis params, -1 = neither)
+	SsAppV int64 `json:"ss_appv"` // Version.Consensus.App
+	SsNV   int64 `json:"ss_nv"`   // size of NextValidators
 }
+
+// the application's parameter update of height h: Block.MaxBytes = c05ParamBase + h, AppVersion = 100 + h
+const c05ParamBase = 4 * 1024 * 1024
 
 type c05Event struct {
 	Ev    string   `json:"ev"`            // Reset | Op | Crash | Restart | HandshakeDone | HandshakeError | Catchup | Panic | Stuck | Done
@@ -130,13 +142,14 @@ type c05Event struct {
 
 // c05Cfg is TMCommitPipeline's cfg record.
 type c05Cfg struct {
-	MaxH   int64   `json:"maxh"`
-	Txs    []int64 `json:"txs"`    // number of transactions of block h
-	VU     []int64 `json:"vu"`     // heights whose EndBlock returns validator updates
-	PU     []int64 `json:"pu"`     // heights whose EndBlock returns consensus-param updates
-	Retain []int64 `json:"retain"` // RetainHeight returned by Commit(h)
-	HashC  bool    `json:"hashc"`  // the application hash covers the number of commits
-	IH     int64   `json:"ih"`     // genesis InitialHeight
+	MaxH    int64   `json:"maxh"`
+	Txs     []int64 `json:"txs"`     // number of transactions of block h
+	VU      []int64 `json:"vu"`      // heights whose EndBlock returns validator updates
+	PU      []int64 `json:"pu"`      // heights whose EndBlock returns consensus-param updates
+	Retain  []int64 `json:"retain"`  // RetainHeight returned by Commit(h)
+	HashC   bool    `json:"hashc"`   // the application hash covers the number of commits
+	IH      int64   `json:"ih"`      // genesis InitialHeight
+	Discard bool    `json:"discard"` // DiscardABCIResponses
 }
 
 func c05Label(op, k string, h, i int64) string {
@@ -272,7 +285,8 @@ func (a *c05App) EndBlock(req abci.RequestEndBlock) abci.ResponseEndBlock {
 	res := abci.ResponseEndBlock{ValidatorUpdates: a.valUpds}
 	if a.paramAt != 0 && req.Height == a.paramAt {
 		res.ConsensusParamUpdates = &abci.ConsensusParams{
-			Block: &abci.BlockParams{MaxBytes: 4 * 1024 * 1024, MaxGas: -1},
+			Block:   &abci.BlockParams{MaxBytes: c05ParamBase + req.Height, MaxGas: -1},
+			Version: &tmproto.VersionParams{AppVersion: uint64(100 + req.Height)},
 		}
 	}
 	return res
@@ -329,6 +343,8 @@ type c05World struct {
 	events    []c05Event
 	heights   int64
 	snapOn    bool
+	discard   bool
+	genParams tmproto.ConsensusParams
 	snaps     map[int64]*c05Snap
 }
 
@@ -445,6 +461,19 @@ func (w *c05World) post() c05Post {
 		p.SsSaved = true
 		p.SsH = st.LastBlockHeight
 		p.SsHash = c05DecodeHash(st.AppHash)
+		p.SsLhvc, p.SsLhpc = st.LastHeightValidatorsChanged, st.LastHeightConsensusParamsChanged
+		p.SsAppV = int64(st.Version.Consensus.App)
+		if st.NextValidators != nil {
+			p.SsNV = int64(st.NextValidators.Size())
+		}
+		switch mb := st.ConsensusParams.Block.MaxBytes; {
+		case st.ConsensusParams.Equal(&w.genParams):
+			p.SsPid = 0
+		case mb > c05ParamBase && mb < c05ParamBase+1000000:
+			p.SsPid = mb - c05ParamBase
+		default:
+			p.SsPid = -1
+		}
 	}
 	if bz, _ := w.stateDisk.Get([]byte("lastABCIResponseKey")); len(bz) > 0 {
 		info := new(tmstate.ABCIResponsesInfo)
@@ -971,6 +1000,12 @@ func c05NewWorld(inp *c05Input, id string) *c05World {
 	w.app.ih = ih
 	w.heights += off
 	genDoc.InitialHeight = ih
+	w.discard = inp.DiscardABCI
+	if genDoc.ConsensusParams != nil {
+		w.genParams = *genDoc.ConsensusParams
+	} else {
+		w.genParams = *types.DefaultConsensusParams()
+	}
 	if w.app.paramAt != 0 {
 		w.app.paramAt += off
 	}
@@ -1001,7 +1036,7 @@ func c05NewWorld(inp *c05Input, id string) *c05World {
 func (w *c05World) specCfg(inp *c05Input) *c05Cfg {
 	n := int64(len(inp.Plan))
 	off := w.app.ih - 1
-	c := &c05Cfg{MaxH: n + off, Txs: []int64{}, VU: []int64{}, PU: []int64{}, Retain: []int64{}, HashC: !w.app.hashTxsOnly, IH: w.app.ih}
+	c := &c05Cfg{MaxH: n + off, Txs: []int64{}, VU: []int64{}, PU: []int64{}, Retain: []int64{}, HashC: !w.app.hashTxsOnly, IH: w.app.ih, Discard: w.discard}
 	for h := int64(1); h <= n; h++ {
 		c.Txs = append(c.Txs, int64(len(w.plan[h+off])))
 		r := w.app.retain[h+off]
@@ -1097,7 +1132,7 @@ func (in *c05Inc) boot(n *c05Node) bool {
 	blockDB := &c05DB{DB: w.blockDisk, in: in, which: "bs"}
 	stateDB := &c05DB{DB: w.stateDisk, in: in, which: "ss"}
 	blockStore := store.NewBlockStore(blockDB)
-	stateStore := sm.NewStore(stateDB, sm.StoreOptions{DiscardABCIResponses: false})
+	stateStore := sm.NewStore(stateDB, sm.StoreOptions{DiscardABCIResponses: w.discard})
 	state, err := stateStore.LoadFromDBOrGenesisDoc(w.genDoc)
 	if err != nil {
 		panic(err)
